@@ -363,6 +363,12 @@ def surfaceAbove (c : Column) (l : Layer) : Except Exc Bool :=
   | none => .error .typeError
   | some s => .ok (decide (s > l.bottom))
 
+/-- `col.surface <= lay.top` (only evaluated for columns that passed `surfaceAbove`, so never `None`) -/
+def surfaceNotAbove (c : Column) (top : Rat) : Bool :=
+  match c.surface with
+  | some s => decide (s ≤ top)
+  | none => false
+
 def blockName (g : Geo) (lay col : Name) : Except Exc Name := Names.blockName g.convention lay col
 
 /-- the columns of `columnlist` with `col.surface > lay.bottom` -/
@@ -402,7 +408,7 @@ def computeConnNames (g : Geo) : Except Exc (List (Name × Name)) :=
       let vert ← layercols.mapM fun c => do
         let col := g.col c
         let this ← g.blockName lay.name col.name
-        let toAtm := ilay = 0 || (match col.surface with | some s => decide (s ≤ lay.top) | none => false)
+        let toAtm := ilay = 0 || surfaceNotAbove col lay.top
         if toAtm then
           if g.atmosType = 0 then
             match g.blockNames.head? with
@@ -610,20 +616,23 @@ def gridCentre (g : Geo) : Option Pt :=
     let s := (g.columnlist.map fun c => Pt.smul (g.col c).area (g.col c).centre).foldr Pt.add (0, 0)
     some (Pt.smul (1 / a) s)
 
+/-- the rotation about a known centre -/
+def rotateAbout (g : Geo) (cs sn : Rat) (c : Pt) (wells : Bool) : Geo :=
+  let g := g.nodelist.foldl (fun g n => g.updNode n fun nd => { nd with pos := rot cs sn c nd.pos }) g
+  let g := g.columnlist.foldl (fun g k => g.updCol k fun cl => { cl with centre := rot cs sn c cl.centre }) g
+  if wells then
+    { g with W := g.welllist.foldl (fun W w => W.modify w fun wl =>
+        { wl with pos := wl.pos.map fun p => let q := rot cs sn c (p.1, p.2.1); (q.1, q.2, p.2.2) }) g.W }
+  else g
+
 /-- `rotate(angle, centre)`, the angle given by its cosine and sine -/
 def rotate (g : Geo) (cs sn : Rat) (centre : Option Pt) (wells : Bool) : Except Exc Geo :=
-  let c := match centre with
-    | some c => some c
-    | none => g.gridCentre
-  match c with
-  | none => .error .typeError
-  | some c =>
-    let g := g.nodelist.foldl (fun g n => g.updNode n fun nd => { nd with pos := rot cs sn c nd.pos }) g
-    let g := g.columnlist.foldl (fun g k => g.updCol k fun cl => { cl with centre := rot cs sn c cl.centre }) g
-    .ok (if wells then
-      { g with W := g.welllist.foldl (fun W w => W.modify w fun wl =>
-          { wl with pos := wl.pos.map fun p => let q := rot cs sn c (p.1, p.2.1); (q.1, q.2, p.2.2) }) g.W }
-    else g)
+  match centre with
+  | some c => .ok (g.rotateAbout cs sn c wells)
+  | none =>
+    match g.gridCentre with
+    | some c => .ok (g.rotateAbout cs sn c wells)
+    | none => .error .typeError
 
 end Geo
 end Model.Geo
